@@ -1068,6 +1068,8 @@ fn damage(w: &W, fmt: Fmt) -> Verdict {
         Fmt::Bed => {
             if w.chance(1, 6) {
                 9
+            } else if w.chance(1, 6) {
+                8
             } else {
                 w.draw(if j > 0 { 4 } else { 2 })
             }
@@ -1077,6 +1079,16 @@ fn damage(w: &W, fmt: Fmt) -> Verdict {
     let mut judge_only_damaged_line = false;
     let what: String;
     match (fmt, kind) {
+        (Fmt::Bed, 8) => {
+            // both coordinates unreadable, as in a title line ("chrom start end")
+            let a = *w.pick(&["start", "chromStart", "abc", "", "x1"]);
+            let b = *w.pick(&["end", "chromEnd", "def", "", "y2"]);
+            fields[1] = a.as_bytes().to_vec();
+            fields[2] = b.as_bytes().to_vec();
+            what = format!("line {}: both coordinate columns replaced by {:?} and {:?}", j, a, b);
+            w.probe("damage_bad_number");
+            w.probe("damage_both_coordinates");
+        }
         (Fmt::Bed, 9) => {
             let mut keep = 1 + w.draw(2) as usize;
             if keep == 1 && fields[0].is_empty() {
@@ -1489,7 +1501,7 @@ pub fn property() -> Property {
         ],
         expected_probes: &[
             "multi_valued_attribute", "key_order_differs_from_insertion", "quoted_csv_field", "csv_field_or_line_split_across_reads",
-            "damage_bad_number", "damage_bad_phase", "damage_phase_in_u8_range", "damage_column_missing", "damage_column_added", "damage_trailing_tab", "damage_empty_column_inserted", "damage_bed_fewer_than_three_columns", "eintr_surfaced_by_reader", "many_records_regime", "records_iterator_driven_through_methods", "related_fields_or_records", "all_partitions_sweep", "first_column_starts_with_hash", "field_with_tab_or_line_feed", "many_values_record", "damaged_line_follows_comment", "damaged_last_line_without_newline",
+            "damage_bad_number", "damage_bad_phase", "damage_phase_in_u8_range", "damage_column_missing", "damage_column_added", "damage_both_coordinates", "damage_trailing_tab", "damage_empty_column_inserted", "damage_bed_fewer_than_three_columns", "eintr_surfaced_by_reader", "many_records_regime", "records_iterator_driven_through_methods", "related_fields_or_records", "all_partitions_sweep", "first_column_starts_with_hash", "field_with_tab_or_line_feed", "many_values_record", "damaged_line_follows_comment", "damaged_last_line_without_newline",
         ],
         quick_runs: 300_000,
         thorough_runs: 20_000_000,
